@@ -228,7 +228,12 @@ func (fr *frame) execBlock(b *ssa.BasicBlock) *ssa.BasicBlock {
 			fn, args := fr.prepareCall(&x.Call)
 			fr.defers = append(fr.defers, deferred{fn, args, x})
 		case *ssa.Go:
-			p.unsupported("go statement in %s", fr.fn)
+			// One schedule only: the goroutine runs to completion at the spawn point. Sound for
+			// fork-join code whose goroutines do not wait for each other (WaitGroup/errgroup
+			// joins are no-ops then); anything that blocks on a channel still ends the path.
+			p.stubs["go statements run the goroutine to completion at the spawn point (one schedule; WaitGroup/errgroup joins are no-ops)"] = true
+			fn, args := fr.prepareCall(&x.Call)
+			p.callValue(fn, args, fr, x)
 		case *ssa.Send:
 			p.unsupported("channel send in %s", fr.fn)
 		case *ssa.MapUpdate:
@@ -425,6 +430,10 @@ func (fr *frame) eval(ins ssa.Value) Value {
 	case *ssa.MakeSlice:
 		return fr.makeSlice(x)
 	case *ssa.MakeChan:
+		if sz, ok := fr.get(x.Size).(*term.T); ok && sz.IsConst() {
+			p.stubs["buffered channels are FIFO queues under one schedule; only non-blocking select is supported"] = true
+			return &ChanV{C: &ChanObj{Cap: int(sz.Uint64())}}
+		}
 		return &OpaqueV{Name: "chan", T: x.Type()}
 	case *ssa.Range:
 		return p.rangeIter(fr.get(x.X), x.X.Type())
@@ -451,7 +460,37 @@ func (fr *frame) eval(ins ssa.Value) Value {
 	case *ssa.TypeAssert:
 		return fr.typeAssert(x)
 	case *ssa.Select:
-		p.unsupported("select statement in %s", fr.fn)
+		if x.Blocking {
+			p.unsupported("blocking select statement in %s", fr.fn)
+		}
+		// non-blocking select over buffered channels (free-list idiom): first ready case, else default
+		tt := x.Type().(*types.Tuple)
+		res := make(TupleV, tt.Len())
+		res[0] = p.F.BVConstI(-1, 64)
+		res[1] = p.F.False()
+		for i := 2; i < tt.Len(); i++ {
+			res[i] = p.zero(tt.At(i).Type())
+		}
+		slot := 2
+		for i, st := range x.States {
+			ch, ok := fr.get(st.Chan).(*ChanV)
+			if !ok || ch.C == nil {
+				p.unsupported("select on an unmodelled channel in %s", fr.fn)
+			}
+			if st.Dir == types.RecvOnly {
+				if len(ch.C.Q) > 0 && res[0].(*term.T).SignedVal().Sign() < 0 {
+					res[0] = p.F.BVConst64(uint64(i), 64)
+					res[1] = p.F.True()
+					res[slot] = ch.C.Q[0]
+					ch.C.Q = ch.C.Q[1:]
+				}
+				slot++
+			} else if len(ch.C.Q) < ch.C.Cap && res[0].(*term.T).SignedVal().Sign() < 0 {
+				res[0] = p.F.BVConst64(uint64(i), 64)
+				ch.C.Q = append(ch.C.Q, fr.get(st.Send))
+			}
+		}
+		return res
 	}
 	p.unsupported("instruction %T (%s)", ins, ins)
 	return nil
